@@ -69,7 +69,9 @@ theorem R.withStore {c : Cfg} {a : ANode} (r : R c a) (s' : Store)
   have tD : ∀ k dh, DataOnDA a k dh → DataOnDA (a.withStore s') k dh := fun k dh h =>
     h.mono (by show a.n.store.height ≤ s'.height; rw [hh]; exact Nat.le_refl _) hb (fun e he => he)
   refine { pinv := hl.toInv, low := r.low, le := ?_, dlow := r.dlow, dle := ?_, acc := ?_, mh := ?_, dacc := ?_,
-           live := hl, synced := hsy, ph := ph, pd := pd, g := ?_, pdw := ⟨r.pdw.1, pi⟩ }
+           live := hl, synced := hsy, ph := ph, pd := pd, g := ?_, pdw := ⟨r.pdw.1, pi⟩,
+           bytes := ⟨r.bytes.aligned, fun e he => (r.bytes.entries e he).mono (Nat.le_refl _)
+             (by show a.n.store.height ≤ s'.height; rw [hh]; exact Nat.le_refl _) hb⟩ }
   · show a.n.hdrWm ≤ s'.height; rw [hh]; exact r.le
   · show a.n.dataWm ≤ s'.height; rw [hh]; exact r.dle
   · intro h ha hb'
